@@ -233,8 +233,9 @@ def r17d(run):
         f = T.methods[name]
         fa = analysis(f)
         t = f.params[2]
+        # the evaluated value of the target is bound (to the parameter itself, or to a local that is then dispatched on)
         deref = [n for n in fa.cfg.nodes if n.kind == "stmt" and isinstance(n.ast, ast.Assign)
-                 and unparse(n.ast.targets[0]) == t and "__forward_value__" in unparse(n.ast.value)]
+                 and isinstance(n.ast.targets[0], ast.Name) and unparse(n.ast.value) == f"{t}.__forward_value__"]
         ok = len(deref) == 1 and any(unparse(a) == f"isinstance({t}, ForwardRef)" and p
                                      for a, p in fa.facts.atoms_at(deref[0]))
         run.check("R17d", f, f"{name}: a ForwardRef target is replaced by its evaluated value", ok,
